@@ -183,11 +183,12 @@ VARIABLES
     cache,    \* committed module cache: [Mods -> [pver, tver, typed, tdiag, links]] (0 = version None)
     sess,     \* what the server holds: [diag, tok]
     taint,    \* modules whose cached typed form refers to garbage-collected declarations
+    unc,      \* [Mods -> "ok" | "cancelled" | "failed"]: fate of the module's last edit's compilation
     mech,     \* ghost: mechanisms by which ImplObs differs from SpecObs in this state
     steps,    \* number of client actions so far
     hist      \* history of client actions (only when KeepHist)
 
-vars == <<text, ver, opened, phase, pend, cache, sess, taint, mech, steps, hist>>
+vars == <<text, ver, opened, phase, pend, cache, sess, taint, unc, mech, steps, hist>>
 
 Cur == ItemsOf(text)
 
@@ -246,11 +247,14 @@ Dangling(c, R, em) == {x \in Mods \ R : em \in c[x].links}
 (* state reached by a completed compilation; R = modules just re-checked,  *)
 (* em = the modified file or "none").                                      *)
 (***************************************************************************)
-Mechanisms(c, s, R, em) ==
+Mechanisms(c, s, R, em, u) ==
     LET spec  == SpecObs(text)
-        Stale == {x \in Mods : c[x].typed # text[x].items}
+        impl  == [diag |-> s.diag, syms |-> [m \in Mods |-> SymsOf(m, c[m].typed)], refs |-> s.tok]
+        \* typed forms of an older text; named only when something observable differs
+        Stale == IF impl = spec THEN {} ELSE {x \in Mods : c[x].typed # text[x].items}
         lost(x) == ~(TcDiag(x, text[x].items, Cur) \subseteq s.diag)
-    IN  {"UncommittedEditStaleTyped" : x \in Stale}
+    IN  {"CancelledEditStaleTyped" : x \in {y \in Stale : u[y] = "cancelled"}}
+        \cup {"FailedEditStaleTyped" : x \in {y \in Stale : u[y] # "cancelled"}}
         \cup {"ReuseTypedDropsDiags" :
                 x \in {y \in Mods \ (R \cup Stale) : lost(y) /\ TcDiag(y, text[y].items, Cur) = c[y].tdiag}}
         \cup {"ReuseTypedSibling" :
@@ -278,6 +282,7 @@ Init ==
     /\ cache = FreshCache(text)
     /\ sess = FreshSess(text)
     /\ taint = {}
+    /\ unc = [m \in Mods |-> "ok"]
     /\ mech = {}
     /\ steps = 1
     /\ hist = IF KeepHist THEN <<[act |-> "Open", m |-> "main", at |-> 0, chg |-> "open", text |-> text]>> ELSE <<>>
@@ -310,7 +315,7 @@ Edit(m, kind) ==
           /\ phase' = "pending" /\ pend' = m
           /\ steps' = steps + 1
           /\ hist' = IF KeepHist THEN Append(hist, H("Edit", m, 0, kind, [text EXCEPT ![m] = nt])) ELSE hist
-          /\ UNCHANGED <<opened, cache, sess, taint, mech>>
+          /\ UNCHANGED <<opened, cache, sess, taint, unc, mech>>
 
 \* didOpen(m) of a document while nothing is in flight: a request without versions.  The root's parse cache is
 \* up to date ("None => fresh"), the cached programs are returned, nothing is re-processed or committed.
@@ -321,8 +326,8 @@ Reopen(m) ==
     /\ opened' = opened \cup {m}
     /\ steps' = steps + 1
     /\ hist' = IF KeepHist THEN Append(hist, H("Open", m, 0, "open", text)) ELSE hist
-    /\ mech' = Mechanisms(cache, sess, {}, "none")
-    /\ UNCHANGED <<text, ver, phase, pend, cache, sess, taint>>
+    /\ mech' = Mechanisms(cache, sess, {}, "none", unc)
+    /\ UNCHANGED <<text, ver, phase, pend, cache, sess, taint, unc>>
 
 (***************************************************************************)
 (* Worker.                                                                 *)
@@ -343,7 +348,8 @@ CompileOk ==
        IN /\ cache' = nc
           /\ sess' = ns
           /\ taint' = PRisk
-          /\ mech' = Mechanisms(nc, ns, PR, pend)
+          /\ unc' = [x \in Mods |-> IF x \in PR THEN "ok" ELSE unc[x]]
+          /\ mech' = Mechanisms(nc, ns, PR, pend, unc')
     /\ phase' = "idle" /\ pend' = "none"
     /\ UNCHANGED <<text, ver, opened, steps, hist>>
 
@@ -353,6 +359,7 @@ CompileCancelled(at) ==
     /\ steps < MaxHist                       \* the cancelling edit is part of the history
     /\ phase' = "cancelled" /\ pend' = "none"
     /\ hist' = IF KeepHist THEN [hist EXCEPT ![Len(hist)].act = "EditCancelled", ![Len(hist)].at = at] ELSE hist
+    /\ unc' = [unc EXCEPT ![pend] = "cancelled"]
     /\ UNCHANGED <<text, ver, opened, cache, sess, taint, mech, steps>>
 
 \* With dangling declaration ids in a reused module the slots freed by the garbage collector are re-used by
@@ -363,7 +370,8 @@ CompileFailed ==
     /\ phase = "pending"
     /\ PRisk # {}
     /\ phase' = "idle" /\ pend' = "none"
-    /\ mech' = Mechanisms(cache, sess, {}, "none") \cup (IF Agree THEN {} ELSE {"DanglingDeclAfterGC"})
+    /\ unc' = [unc EXCEPT ![pend] = "failed"]
+    /\ mech' = Mechanisms(cache, sess, {}, "none", unc') \cup (IF Agree THEN {} ELSE {"DanglingDeclAfterGC"})
     /\ UNCHANGED <<text, ver, opened, cache, sess, taint, steps, hist>>
 
 Crash ==
@@ -371,13 +379,14 @@ Crash ==
     /\ PRisk # {}
     /\ phase' = "dead" /\ pend' = "none"
     /\ mech' = {"DanglingDeclAfterGC"}
-    /\ UNCHANGED <<text, ver, opened, cache, sess, taint, steps, hist>>
+    /\ UNCHANGED <<text, ver, opened, cache, sess, taint, unc, steps, hist>>
 
 \* the client restarts the server on the current text
 Restart ==
     /\ phase = "dead"
     /\ phase' = "idle"
     /\ cache' = FreshCache(text) /\ sess' = FreshSess(text) /\ taint' = {} /\ mech' = {}
+    /\ unc' = [m \in Mods |-> "ok"]
     /\ ver' = [m \in Mods |-> 1] /\ opened' = {"main"}
     /\ UNCHANGED <<text, pend, steps, hist>>
 
@@ -404,11 +413,12 @@ AgreeAfterCompile == Quiet => Agree
 MechComplete == (Quiet /\ ~Agree) => mech # {}
 MechSound    == (Quiet /\ mech # {}) => ~Agree
 \* one invariant per mechanism: TLC's counterexample is a shortest history exhibiting it
-AllMechs == {"ReuseTypedSibling", "ReuseTypedDropsDiags", "UncommittedEditStaleTyped",
+AllMechs == {"ReuseTypedSibling", "ReuseTypedDropsDiags", "CancelledEditStaleTyped", "FailedEditStaleTyped",
              "StaleTokensOtherFile", "DanglingDeclAfterGC"}
 NoReuseTypedSibling         == ~(Quiet /\ "ReuseTypedSibling" \in mech)
 NoReuseTypedDropsDiags      == ~(Quiet /\ "ReuseTypedDropsDiags" \in mech)
-NoUncommittedEditStaleTyped == ~(Quiet /\ "UncommittedEditStaleTyped" \in mech)
+NoCancelledEditStaleTyped   == ~(Quiet /\ "CancelledEditStaleTyped" \in mech)
+NoFailedEditStaleTyped      == ~(Quiet /\ "FailedEditStaleTyped" \in mech)
 NoStaleTokensOtherFile      == ~(Quiet /\ "StaleTokensOtherFile" \in mech)
 NoDanglingDeclAfterGC       == ~("DanglingDeclAfterGC" \in mech)
 \* a disagreement that no listed mechanism explains
@@ -419,9 +429,10 @@ ReopenReuses == ParseValid(cache, "main", NoVersions)
 \* an edit always invalidates the edited module and its ancestors, and nothing else
 RecheckShape == phase = "pending" =>
                    PR = {pend} \cup {x \in Mods : pend \in Children(x) \/ \E y \in Children(x) : pend \in Children(y)}
-\* without uncommitted edits every cached typed form is the typed form of the current text
+\* a cached typed form differs from the typed form of the current text only for a module whose last edit was
+\* not committed (cancelled / failed), or is being compiled
 TypedCurrentUnlessUncommitted ==
-    (Quiet /\ "UncommittedEditStaleTyped" \notin mech) => \A x \in Mods : cache[x].typed = text[x].items
+    \A x \in Mods : cache[x].typed # text[x].items => (unc[x] # "ok" \/ x = pend \/ phase = "dead")
 
 TypeOK ==
     /\ phase \in {"idle", "pending", "cancelled", "dead"}
